@@ -27,6 +27,11 @@ from ...schema import (
     Schema,
     unwrap_type,
 )
+from ...schema.introspection import (
+    SCHEMA_INTROSPECTION_FIELD,
+    TYPE_INTROSPECTION_FIELD,
+    TYPE_NAME_INTROSPECTION_FIELD,
+)
 from ..visitors import ValidationVisitor
 
 
@@ -305,6 +310,18 @@ def _collect_fields_and_fragments(
                 if isinstance(parent_type, (ObjectType, InterfaceType))
                 else None
             )
+
+            # The meta fields are not part of any type's field map but their
+            # response shape still has to agree with the other fields sharing
+            # their response name.
+            if fielddef is None:
+                if fieldname == "__typename":
+                    fielddef = TYPE_NAME_INTROSPECTION_FIELD
+                elif parent_type is ctx.schema.query_type:
+                    if fieldname == "__schema":
+                        fielddef = SCHEMA_INTROSPECTION_FIELD
+                    elif fieldname == "__type":
+                        fielddef = TYPE_INTROSPECTION_FIELD
 
             response_name = (
                 selection.alias.value
